@@ -4,7 +4,7 @@
 (* ClockListeners.tla: every scheduled event gets the time the specification *)
 (* gives it (simulation time + delay), announcements and executions follow.  *)
 EXTENDS TraceBatch
-CONSTANTS EndT, MaxEv, Delays, Prios, OldClockDuringTC
+CONSTANTS EndT, MaxEv, Delays, Prios, StepMode, OldClockDuringTC
 VARIABLES clock, ev, pending, ann, about, lastTC, op
 CL == INSTANCE ClockListeners
 clvars == <<clock, ev, pending, ann, about, lastTC, op>>
